@@ -165,6 +165,23 @@ EdgeCarries(g, sa, sb, sg) ==
      \/ sg \in {"+", ""} /\ LinkDirect(l, sa, sb, FALSE, <<>>)
      \/ sg \in {"-", ""} /\ LinkCompl(l, sa, sb, FALSE, <<>>)
 
+\* The traversal sign says which of the two links is read: "+" the link as
+\* written, "-" its complement.  For most links the oriented segments of the
+\* step already decide the sign; for a hairpin (`L a + a -`, `L a - a +`) the
+\* link and its complement join the same oriented segments, and only the
+\* alignment tells the two readings apart: an asymmetric CIGAR read in the
+\* other direction is a different statement about the sequences.
+ReadLink(l, sg) == IF sg = "-" THEN ComplLink(l) ELSE l
+LinkReads(l, sg, sa, sb, hasov, ov) == LinkDirect(ReadLink(l, sg), sa, sb, hasov, ov)
+Signs(sg) == IF sg = "" THEN {"+", "-"} ELSE {sg}
+\* signs with which link l can serve the step sa -> sb of a path stating ov
+StepSigns(l, sa, sb, hasov, ov) == {s \in {"+", "-"} : LinkReads(l, s, sa, sb, hasov, ov)}
+\* overlaps read on the step sa -> sb through link l traversed with sign sg ("" = any)
+LinkReadOvs(l, sg, sa, sb) ==
+  {ReadLink(l, s).ov : s \in {t \in Signs(sg) : LinkReads(l, t, sa, sb, FALSE, <<>>)}}
+EdgeReadOvs(g, sg, sa, sb) == IF ClassOf(g) = "L" THEN LinkReadOvs(EdgeToLink(g), sg, sa, sb) ELSE {}
+Hairpin(l) == l.t = "L" /\ l.from = l.to /\ l.fo # l.too
+
 \* identity of an edge inside a path comparison: oriented pair + alignment
 \* (the intervals are judged by the edge clauses)
 PathKey(g) == {[s1 |-> h.s1, o1 |-> h.o1, s2 |-> h.s2, o2 |-> h.o2, al |-> h.al, star |-> h.star] : h \in EForms(g)}
